@@ -16,6 +16,9 @@ def eventauth_AuthEvents_Clear : List String := [
   "func func()",
   "for k := range a.events {",
   "delete(a.events, k)",
+  "}",
+  "for k := range a.roomIDs {",
+  "delete(a.roomIDs, k)",
   "}"
 ]
 
@@ -246,14 +249,8 @@ def eventauth__checkKnocking : List String := [
   "return nil"
 ]
 
-def eventauth__checkPowerLevelEventV1 : List String := [
-  "func func(sender string, createEvent PDU, oldPowerLevels, newPowerLevels PowerLevelContent) error",
-  "return nil"
-]
-
-def eventauth__checkPowerLevelEventV2 : List String := [
-  "func func(sender string, createEvent PDU, oldPowerLevels, newPowerLevels PowerLevelContent) error",
-  "senderLevel := oldPowerLevels.UserLevel(spec.SenderID(sender))",
+def eventauth__checkNotificationLevels : List String := [
+  "func func(senderLevel int64, oldPowerLevels, newPowerLevels PowerLevelContent) error",
   "type levelPair struct { old int64 new int64 userID string }",
   "notificationLevelChecks := []levelPair{}",
   "for notification := range newPowerLevels.Notifications {",
@@ -276,17 +273,32 @@ def eventauth__checkPowerLevelEventV2 : List String := [
   "return nil"
 ]
 
+def eventauth__checkPowerLevelEventV1 : List String := [
+  "func func(sender string, createEvent PDU, oldPowerLevels, newPowerLevels PowerLevelContent) error",
+  "return nil"
+]
+
+def eventauth__checkPowerLevelEventV2 : List String := [
+  "func func(sender string, createEvent PDU, oldPowerLevels, newPowerLevels PowerLevelContent) error",
+  "senderLevel := oldPowerLevels.UserLevel(spec.SenderID(sender))",
+  "return checkNotificationLevels(senderLevel, oldPowerLevels, newPowerLevels)"
+]
+
 def eventauth__checkPowerLevelEventV3 : List String := [
   "func func(sender string, createEvent PDU, oldPowerLevels, newPowerLevels PowerLevelContent) error",
-  "if err := checkPowerLevelEventV2(sender, createEvent, oldPowerLevels, newPowerLevels); err != nil {",
-  "return err",
-  "}",
   "var content CreateContent",
   "if err := json.Unmarshal(createEvent.Content(), &content); err != nil {",
   "return errorf(\"checkPowerLevelEventV3 unparseable create event content: %s\", err.Error())",
   "}",
   "creators := []string{string(createEvent.SenderID())}",
   "creators = append(creators, content.AdditionalCreators...)",
+  "senderLevel := oldPowerLevels.UserLevel(spec.SenderID(sender))",
+  "if slices.Contains(creators, sender) {",
+  "senderLevel = CreatorPowerLevel",
+  "}",
+  "if err := checkNotificationLevels(senderLevel, oldPowerLevels, newPowerLevels); err != nil {",
+  "return err",
+  "}",
   "for userID := range newPowerLevels.Users {",
   "if slices.Contains(creators, userID) {",
   "return &EventValidationError{Code: 400, Message: fmt.Sprintf(\"new power levels event must not contain creator '%s'\", userID)}",
@@ -385,11 +397,19 @@ def eventauth_allowerContext_aliasEventAllowed : List String := [
 
 def eventauth_allowerContext_allowed : List String := [
   "func func(event PDU) error",
+  "if !a.provider.Valid() {",
+  "return errorf(\"authEvents contains events from different rooms\")",
+  "}",
   "switch event.Type() {",
   "case spec.MRoomCreate:",
   "return a.createEventAllowed(event)",
   "case spec.MRoomAliases:",
   "return a.aliasEventAllowed(event)",
+  "}",
+  "if a.powerLevelsErr != nil {",
+  "return a.powerLevelsErr",
+  "}",
+  "switch event.Type() {",
   "case spec.MRoomMember:",
   "return a.memberEventAllowed(event)",
   "case spec.MRoomPowerLevels:",
@@ -570,6 +590,7 @@ def eventauth_allowerContext_update : List String := [
   "a.createEvent, a.powerLevelsEvent, a.joinRuleEvent = nil, nil, nil",
   "a.resetCreate()",
   "a.powerLevels = PowerLevelContent{}",
+  "a.powerLevelsErr = nil",
   "a.joinRule = JoinRuleContent{}",
   "}",
   "if e, _ := provider.Create(); a.createEvent == nil || a.createEvent != e {",
@@ -592,9 +613,11 @@ def eventauth_allowerContext_update : List String := [
   "if p, err := NewPowerLevelContentFromAuthEvents(provider, creator); err == nil {",
   "a.powerLevelsEvent = e",
   "a.powerLevels = p",
+  "a.powerLevelsErr = nil",
   "} else {",
   "a.powerLevelsEvent = nil",
   "a.powerLevels = PowerLevelContent{}",
+  "a.powerLevelsErr = err",
   "}",
   "}",
   "if e, _ := provider.JoinRules(); a.joinRuleEvent == nil || a.joinRuleEvent != e {",
@@ -803,7 +826,7 @@ def eventauth_membershipAllower_membershipAllowedSelf : List String := [
   "case spec.Invite:",
   "return nil",
   "case spec.Knock:",
-  "return nil",
+  "return m.roomVersionImpl.CheckKnockingAllowed(string(m.roomVersionImpl.Version()), m.senderID, m.targetID, spec.Knock, m.oldMember.Membership)",
   "default:",
   "return m.membershipFailed(\"sender cannot leave from membership state %q\", m.oldMember.Membership)",
   "}",
@@ -1029,9 +1052,14 @@ def eventcontent__NewMemberContentFromAuthEvents : List String := [
 
 def eventcontent__NewMemberContentFromEvent : List String := [
   "func func(event PDU) (c MemberContent, err error)",
-  "if err = json.Unmarshal(event.Content(), &c); err != nil {",
+  "content, err := exactFieldsOnly(event.Content(), &c)",
+  "if err != nil {",
+  "err = errorf(\"unparseable member event content: %s\", err.Error())",
+  "return",
+  "}",
+  "if err = json.Unmarshal(content, &c); err != nil {",
   "var partial membershipContent",
-  "if err = json.Unmarshal(event.Content(), &partial); err != nil {",
+  "if err = json.Unmarshal(content, &partial); err != nil {",
   "err = errorf(\"unparseable member event content: %s\", err.Error())",
   "return",
   "}",
@@ -1170,6 +1198,10 @@ def eventcontent__isValidUserID : List String := [
 
 def eventcontent__parseIntegerPowerLevels : List String := [
   "func func(contentBytes []byte, c *PowerLevelContent) error",
+  "var nulls struct { Ban notNullLevel `json:\"ban\"` Invite notNullLevel `json:\"invite\"` Kick notNullLevel `json:\"kick\"` Redact notNullLevel `json:\"redact\"` Users notNullLevels `json:\"users\"` UsersDefault notNullLevel `json:\"users_default\"` Events notNullLevels `json:\"events\"` EventsDefault notNullLevel `json:\"events_default\"` StateDefault notNullLevel `json:\"state_default\"` Notifications notNullLevels `json:\"notifications\"` }",
+  "if err := json.Unmarshal(contentBytes, &nulls); err != nil {",
+  "return err",
+  "}",
   "return json.Unmarshal(contentBytes, c)"
 ]
 
@@ -1238,6 +1270,26 @@ def eventcontent_levelJSONValue_assignIfExists : List String := [
   "}"
 ]
 
-def functions : List String := ["eventauth.go:AuthEvents.AddEvent", "eventauth.go:AuthEvents.Clear", "eventauth.go:AuthEvents.Create", "eventauth.go:AuthEvents.JoinRules", "eventauth.go:AuthEvents.Member", "eventauth.go:AuthEvents.PowerLevels", "eventauth.go:AuthEvents.ThirdPartyInvite", "eventauth.go:AuthEvents.Valid", "eventauth.go:NotAllowed.Error", "eventauth.go:StateNeeded.AuthEventReferences", "eventauth.go:StateNeeded.Tuples", "eventauth.go:.Allowed", "eventauth.go:.NewAuthEvents", "eventauth.go:.StateNeededForAuth", "eventauth.go:.StateNeededForProtoEvent", "eventauth.go:.accumulateStateNeeded", "eventauth.go:.allowRestrictedJoins", "eventauth.go:.checkEventLevels", "eventauth.go:.checkKnocking", "eventauth.go:.checkPowerLevelEventV1", "eventauth.go:.checkPowerLevelEventV2", "eventauth.go:.checkPowerLevelEventV3", "eventauth.go:.checkUserLevels", "eventauth.go:.disallowKnocking", "eventauth.go:.disallowRestrictedJoins", "eventauth.go:.errorf", "eventauth.go:.newAllowerContext", "eventauth.go:.thirdPartyInviteToken", "eventauth.go:allowerContext.aliasEventAllowed", "eventauth.go:allowerContext.allowed", "eventauth.go:allowerContext.createEventAllowed", "eventauth.go:allowerContext.defaultEventAllowed", "eventauth.go:allowerContext.memberEventAllowed", "eventauth.go:allowerContext.newEventAllower", "eventauth.go:allowerContext.newMembershipAllower", "eventauth.go:allowerContext.powerLevelsEventAllowed", "eventauth.go:allowerContext.redactEventAllowed", "eventauth.go:allowerContext.resetCreate", "eventauth.go:allowerContext.update", "eventauth.go:allowerContext.userPowerLevel", "eventauth.go:eventAllower.commonChecks", "eventauth.go:membershipAllower.membershipAllowed", "eventauth.go:membershipAllower.membershipAllowedFromThirdPartyInvite", "eventauth.go:membershipAllower.membershipAllowedOther", "eventauth.go:membershipAllower.membershipAllowedSelf", "eventauth.go:membershipAllower.membershipAllowedSelfForRestrictedJoin", "eventauth.go:membershipAllower.membershipFailed", "eventcontent.go:CreateContent.DomainAllowed", "eventcontent.go:CreateContent.UserIDAllowed", "eventcontent.go:HistoryVisibility.Scan", "eventcontent.go:HistoryVisibility.Value", "eventcontent.go:MXIDMapping.Sign", "eventcontent.go:PowerLevelContent.Defaults", "eventcontent.go:PowerLevelContent.EventLevel", "eventcontent.go:PowerLevelContent.NotificationLevel", "eventcontent.go:PowerLevelContent.UserLevel", "eventcontent.go:.CreatorsFromCreateEvent", "eventcontent.go:.NewCreateContentFromAuthEvents", "eventcontent.go:.NewJoinRuleContentFromAuthEvents", "eventcontent.go:.NewMemberContentFromAuthEvents", "eventcontent.go:.NewMemberContentFromEvent", "eventcontent.go:.NewPowerLevelContentFromAuthEvents", "eventcontent.go:.NewPowerLevelContentFromEvent", "eventcontent.go:.NewThirdPartyInviteContentFromAuthEvents", "eventcontent.go:.checkCreateEventV1", "eventcontent.go:.checkCreateEventV2", "eventcontent.go:.checkCreateEventV3", "eventcontent.go:.domainFromID", "eventcontent.go:.isValidUserID", "eventcontent.go:.parseIntegerPowerLevels", "eventcontent.go:.parsePowerLevels", "eventcontent.go:levelJSONValue.UnmarshalJSON", "eventcontent.go:levelJSONValue.assignIfExists"]
+def eventcontent_notNullLevel_UnmarshalJSON : List String := [
+  "func func(data []byte) error",
+  "if string(data) == \"null\" {",
+  "return fmt.Errorf(\"power level is null\")",
+  "}",
+  "return nil"
+]
+
+def eventcontent_notNullLevels_UnmarshalJSON : List String := [
+  "func func(data []byte) error",
+  "var levels map[string]notNullLevel",
+  "if err := json.Unmarshal(data, &levels); err != nil {",
+  "return err",
+  "}",
+  "if levels == nil {",
+  "return fmt.Errorf(\"map of power levels is null\")",
+  "}",
+  "return nil"
+]
+
+def functions : List String := ["eventauth.go:AuthEvents.AddEvent", "eventauth.go:AuthEvents.Clear", "eventauth.go:AuthEvents.Create", "eventauth.go:AuthEvents.JoinRules", "eventauth.go:AuthEvents.Member", "eventauth.go:AuthEvents.PowerLevels", "eventauth.go:AuthEvents.ThirdPartyInvite", "eventauth.go:AuthEvents.Valid", "eventauth.go:NotAllowed.Error", "eventauth.go:StateNeeded.AuthEventReferences", "eventauth.go:StateNeeded.Tuples", "eventauth.go:.Allowed", "eventauth.go:.NewAuthEvents", "eventauth.go:.StateNeededForAuth", "eventauth.go:.StateNeededForProtoEvent", "eventauth.go:.accumulateStateNeeded", "eventauth.go:.allowRestrictedJoins", "eventauth.go:.checkEventLevels", "eventauth.go:.checkKnocking", "eventauth.go:.checkNotificationLevels", "eventauth.go:.checkPowerLevelEventV1", "eventauth.go:.checkPowerLevelEventV2", "eventauth.go:.checkPowerLevelEventV3", "eventauth.go:.checkUserLevels", "eventauth.go:.disallowKnocking", "eventauth.go:.disallowRestrictedJoins", "eventauth.go:.errorf", "eventauth.go:.newAllowerContext", "eventauth.go:.thirdPartyInviteToken", "eventauth.go:allowerContext.aliasEventAllowed", "eventauth.go:allowerContext.allowed", "eventauth.go:allowerContext.createEventAllowed", "eventauth.go:allowerContext.defaultEventAllowed", "eventauth.go:allowerContext.memberEventAllowed", "eventauth.go:allowerContext.newEventAllower", "eventauth.go:allowerContext.newMembershipAllower", "eventauth.go:allowerContext.powerLevelsEventAllowed", "eventauth.go:allowerContext.redactEventAllowed", "eventauth.go:allowerContext.resetCreate", "eventauth.go:allowerContext.update", "eventauth.go:allowerContext.userPowerLevel", "eventauth.go:eventAllower.commonChecks", "eventauth.go:membershipAllower.membershipAllowed", "eventauth.go:membershipAllower.membershipAllowedFromThirdPartyInvite", "eventauth.go:membershipAllower.membershipAllowedOther", "eventauth.go:membershipAllower.membershipAllowedSelf", "eventauth.go:membershipAllower.membershipAllowedSelfForRestrictedJoin", "eventauth.go:membershipAllower.membershipFailed", "eventcontent.go:CreateContent.DomainAllowed", "eventcontent.go:CreateContent.UserIDAllowed", "eventcontent.go:HistoryVisibility.Scan", "eventcontent.go:HistoryVisibility.Value", "eventcontent.go:MXIDMapping.Sign", "eventcontent.go:PowerLevelContent.Defaults", "eventcontent.go:PowerLevelContent.EventLevel", "eventcontent.go:PowerLevelContent.NotificationLevel", "eventcontent.go:PowerLevelContent.UserLevel", "eventcontent.go:.CreatorsFromCreateEvent", "eventcontent.go:.NewCreateContentFromAuthEvents", "eventcontent.go:.NewJoinRuleContentFromAuthEvents", "eventcontent.go:.NewMemberContentFromAuthEvents", "eventcontent.go:.NewMemberContentFromEvent", "eventcontent.go:.NewPowerLevelContentFromAuthEvents", "eventcontent.go:.NewPowerLevelContentFromEvent", "eventcontent.go:.NewThirdPartyInviteContentFromAuthEvents", "eventcontent.go:.checkCreateEventV1", "eventcontent.go:.checkCreateEventV2", "eventcontent.go:.checkCreateEventV3", "eventcontent.go:.domainFromID", "eventcontent.go:.isValidUserID", "eventcontent.go:.parseIntegerPowerLevels", "eventcontent.go:.parsePowerLevels", "eventcontent.go:levelJSONValue.UnmarshalJSON", "eventcontent.go:levelJSONValue.assignIfExists", "eventcontent.go:notNullLevel.UnmarshalJSON", "eventcontent.go:notNullLevels.UnmarshalJSON"]
 
 end VPins.C07
